@@ -127,6 +127,21 @@ def gen(ctx, deep):
         cfg = ec.Config("rbac", adapter=True, watcher=None, initial={"p": [[f"n{L}", "data1", "read"], ["alice", "data2", "read"]], "g": chain + [["alice", "n0"]], "g2": []})
         cfg.tag = {"depth_ok": L + 1 < 10}
         jobs.append((cfg, [("remove", "p", ["nobody", "x", "y"])]))
+    # wide hierarchies: many roles reachable within few levels (the depth bound counts levels, not visited roles)
+    for width in (9, 10, 11, 14, 20):
+        for variant in range(3):
+            roles = [f"r{i}" for i in range(width)]
+            if variant == 0:
+                g = [["alice", r] for r in roles]
+            elif variant == 1:
+                g = [["alice", "admin"]] + [["admin", r] for r in roles]
+            else:
+                g = [["alice", r] for r in roles[: width // 2]] + [[roles[0], r] for r in roles[width // 2 :]]
+            rng.shuffle(g)
+            p = [[roles[-1], "data2", "read"], [roles[0], "data1", "read"], [roles[width // 2], "data1", "read"], ["bob", "data2", "read"]]
+            cfg = ec.Config("rbac", adapter=True, watcher=None, initial={"p": p, "g": g, "g2": []})
+            cfg.tag = {"depth_ok": True}
+            jobs.append((cfg, [("remove", "p", ["nobody", "x", "y"])]))
     # domain variant: implementation cross-checks + implicit roles against the model
     PD = [[s, d, o, "read"] for s in NAMES for d in ("d1", "d2") for o in OBJS]
     GD = [[a, b, d] for a in NAMES for b in NAMES for d in ("d1", "d2")]
